@@ -72,7 +72,7 @@ CHECKS = {
 
 # additions of the later validation rounds (DESIGN.md section 6a), appended to the level texts
 EXTRA = {
- "C01": " Later additions: containers of 9-300 members and strings up to 9000 bytes in every profile; operations of every kind on members 3-8000 levels down; index tokens beyond the int range (2^32 .. 2^65) as plain out-of-range indices.",
+ "C01": " Later additions: containers of 9-300 members and strings up to 9000 bytes in every profile; operations of every kind on members 3-8000 levels down; index tokens beyond the int range (2^32 .. 2^65) as plain out-of-range indices. Sequences over member names that differ only by case folding, normalisation, width or a trailing character, with near-miss pointers to absent members named like a present one but for the letter case or a trailing blank.",
  "C02": " Later additions: wide objects (9-300 members); documents and patches whose interesting part lies 3-8000 levels down; legal whitespace around either text. Member names that differ only by case folding, normalisation, width or a trailing character; member names spelled with escapes around paired and unpaired surrogates, several side by side.",
  "C03": " Later additions: differences (removal, change, addition next to unchanged siblings) 3-8000 levels down; wide objects. Member names that differ only by case folding, normalisation, width or a trailing character.",
  "C04": " Later additions: chained-nesting-growth - nine chains of moves that grow the nesting to 12000..700000 levels, each run in a child process with Go's default stack limit (known finding F04: the two longest end in a fatal stack overflow); exactly 10001 levels assembled and then copied; wide objects.",
@@ -89,7 +89,7 @@ EXTRA = {
  "C15": " Later additions: indentation of documents nested 3-2500 levels; documents with colliding or duplicate member names (form of the result only); the search for introduced escapes skips escaped backslashes.",
  "C16": " Later additions: array-form CreateMergePatch gates, array and scalar partners for the MergePatch/MergeMergePatches gates (16 gates).",
  "C17": " Later additions: Compact/Indent/HTMLEscape of texts nested 3-2500 levels; values nested more than 1000 pointer/slice/map levels that point into themselves without a cycle; token-and-decode walks; targets decoded into again. Unpaired surrogate escapes followed directly by another escape or by a complete pair.",
- "C18": " Later additions: the same decoded Patch applied a second time in half of the calls; index tokens beyond the int range; operations deep down; retained results.",
+ "C18": " Later additions: the same decoded Patch applied a second time in half of the calls; index tokens beyond the int range; operations deep down; retained results. Sequences over member names that differ only by case folding, normalisation or width, with near-miss pointers to absent members named like a present one but for the letter case or a trailing blank.",
  "C19": " Later additions: strings and names needing escapes through the legacy merge functions; the four functions on documents whose interesting part lies 3-8000 levels down. Member names that differ only by case folding, normalisation or width, through MergePatch, MergeMergePatches and CreateMergePatch.",
  "C20": " Later additions: 255-513 -p options with the bad file at position 255/256/512; stdin arriving in two to four writes with pauses; patch files followed by stray brackets; same-named files in different directories. Patch files that begin with a byte order mark, NUL, non-JSON white space, a comment line or an XSSI guard.",
 }
